@@ -431,6 +431,8 @@ FromFloatOK(bits, w, r) ==
 \* decimal -> f64
 ToFloatOK(x, r) ==
   IF "bits" \notin DOMAIN r THEN Bad("outcome-kind") ELSE Chk(ToF64OK(x, ZOf(r.bits).m), "to_f64")
+ToFloatWOK(x, r) ==          \* x a wide decimal
+  IF "bits" \notin DOMAIN r THEN Bad("outcome-kind") ELSE Chk(WToF64OK(x, ZOf(r.bits).m), "to_f64")
 \* float -> decimal -> f64 returns the identical float (-0.0 comes back as 0.0; a binary32 as the same value)
 FloatRoundTripOK(bits, w, r) ==
   IF ~IsFiniteF(bits, w) THEN Chk(IsErr(r) \/ IsNone(r), "nan-or-infinity-must-be-an-error")
